@@ -63,6 +63,8 @@ type CellResult struct {
 	Dispatched *ssa.Function
 	Steps      int
 	Fetched    bool
+	Branches   []*absint.Bool // conditions of undecided branches, in traversal order
+	BranchFns  []*ssa.Function
 }
 
 // CPUModel holds what is shared by all cells of one package.
@@ -325,6 +327,10 @@ func (m *CPUModel) Run(cell CPUCell) *CellResult {
 		acc.Data = val
 		res.Accesses = append(res.Accesses, acc)
 		return val
+	}
+	ip.Hooks.Branch = func(ip *absint.Interp, cond *absint.Bool, instr *ssa.If) {
+		res.Branches = append(res.Branches, cond)
+		res.BranchFns = append(res.BranchFns, instr.Parent())
 	}
 	ip.Hooks.UnknownCall = func(ip *absint.Interp, st *absint.State, ev *absint.Event) (absint.Val, bool) {
 		// user callbacks (OnPC, OnWDM): outside the library; assumed not to touch the CPU
